@@ -1,13 +1,15 @@
 ------------------------------ MODULE Trace_GenSrc ------------------------------
 (* Records [id, ok, ref, ref2, obs]: ok = the in-process reference succeeded, ref = digest of
    emit_c_code() into a StringIO, ref2 = digest of emit_c_code() to a path, obs = sequence of
-   [status, digest, wrote] of the CLI runs.  Prints <<"VERDICT", k, clause, i>> for every bad
+   [status, digest, wrote, mayfail] of the CLI runs (mayfail: the output path was a
+   directory / read-only before the run, where the property does not demand success).  Prints <<"VERDICT", k, clause, i>> for every bad
    observation i of record k (clauses of GenSrc!Verdict, or "reference" when the two in-process
    references differ) and finally <<"CHECKED", records, observations>>. *)
 EXTENDS Integers, Sequences, FiniteSets, Json, IOUtils, TLC
 VARIABLES k, n
 Recs == JsonDeserialize(IOEnv.TRACE_FILE)
-Verdict(r, o) == IF r.ok THEN (IF o.status # 0 THEN "status" ELSE IF o.digest # r.ref THEN "bytes" ELSE "ok")
+Verdict(r, o) == IF r.ok THEN (IF o.status # 0 THEN (IF o.mayfail THEN "ok" ELSE "status")
+                               ELSE IF o.digest # r.ref THEN "bytes" ELSE "ok")
                  ELSE (IF o.status = 0 THEN "accepted-what-the-reference-rejects"
                        ELSE IF o.wrote THEN "wrote-output-on-failure" ELSE "ok")
 Bad(r) == {i \in DOMAIN r.obs : Verdict(r, r.obs[i]) # "ok"}
